@@ -41,6 +41,9 @@ claimed.update({
  "C16": dict(text="Slice: deductive proof of panic-freedom and totality of Validator.typeOfValue for every value (including set, record and extension literals decoded from JSON), and of termination and panic-freedom of the walk over a possibly cyclic entity-type hierarchy (isEntityDescendantFrom: recursion measure = number of schema entity types not yet seen).",
              note="Resolution (cycle detection for common types and action groups), isActionDescendant (terminates only because the resolver rejects action cycles - a cross-function invariant not under contract) and the rest of the type checker are unverified surroundings. The three facts about the measure (finite-set cardinality) are axioms.",
              ref="DESIGN.md §6 C16"),
+ "C05": dict(text="Slice: deductive proof (a) that the decision rule batch applies to the residual policies (isAuthorized) is the rule of cedar.Authorize - decision, reasons and errors as sets, for every policy map and every enumeration order; (b) that every residual policy is compiled exactly as cedar.Policy compiles it (batchCompile: ToEval(PolicyToNode(foldPolicy p))); (c) that substitution (cloneSub) replaces the variable itself and, inside a record, the variable at every key, leaving other keys and the key set unchanged (one genuine defect found and repaired here); (d) that an enumeration level restores the evaluator state (residual policies, substitution, environment) when it returns normally; (e) frame: batch.Authorize writes only memory it allocated (under C19).",
+             note="Not under contract: the enumeration itself (callback invoked exactly once per element of the Cartesian product, in which order, with which Values map), cancellation and callback errors, variable discovery and the unbound/unused checks, substitution inside sets, doPartial/fixIgnores beyond their frame, and the link residual-policy semantics = original semantics (that is C06, with its recorded finding). Aliasing between the Values maps of recursion levels is not modelled (maps are values in the logic).",
+             ref="DESIGN.md §6 C05"),
  "C06": dict(text="Deductive proof (a) that the partial evaluator decides a scope clause exactly when the request part is a concrete entity, with the verdict of the full semantics (equality, reachability incl. the set form - sound and complete -, type tests); (b) of the structure of partial() for 27 node kinds and of partialAnd/Or/IfThenElse: children are processed in source order, the first error other than 'depends on an unknown' decides, an operator is evaluated only when every child became a literal and then with exactly the evaluator of the full semantics (ToEval), an unknown result keeps the rebuilt node, otherwise the node is rebuilt; (c) per-operator lemmas that a literal placed in the residual is fully known when the operands, the policy literals and the entity store are, and that an operator's result on literal operands depends on the environment only through the entity store - hence is the same under every completion of the request.",
              note="Known finding (recorded, not repaired): a request part that is a composite value with an unknown nested inside is treated as a literal, so whole-value operators (contains, ==, ...) are evaluated while unknown - PartialPolicy drops a policy that a completion satisfies; the lemma for request variables is proved outside that region only. Not under contract: Has, extension calls, set and record literals inside partial (shape only / nothing), PartialPolicy's condition loop (keep/drop, error embedding, ignore semantics). The induction over the expression tree that combines the per-operator lemmas is applied outside the solver.",
              ref="DESIGN.md §6 C06"),
